@@ -2,7 +2,7 @@
 //!
 //! Grammar read here (from the manual's examples, not from rink's printer):
 //!   numeral  := ['-'] digits ['.' digits] [ '[' digits [', period ' DEC] ']...' ] ['e' ['-'] DEC]
-//!             | ['-'] DEC '/' DEC            (fraction: always decimal)
+//!             | ['-'] INT '/' INT            (fraction: both integers in the base)
 //! `eK` multiplies by base^K (K written in decimal). In bases >= 15 the letter
 //! `e` is also a digit, so a numeral may have several grammatical readings;
 //! all of them are returned.
@@ -120,12 +120,10 @@ pub fn read(text: &str, base: u32) -> Vec<Reading> {
     if body.is_empty() {
         return out;
     }
-    // fraction n/d (decimal)
+    // fraction n/d: numerator and denominator are integers written in `base`
     if let Some((a, b)) = body.split_once('/') {
-        if all_dec(a) && all_dec(b) {
-            let n = fold_digits(a, 10).unwrap();
-            let d = fold_digits(b, 10).unwrap();
-            if !d.is_zero() {
+        if let (Some(n), Some(d)) = (fold_digits(a, base), fold_digits(b, base)) {
+            if !a.is_empty() && !b.is_empty() && !d.is_zero() {
                 let v = Q::new(if neg { -n } else { n }, d);
                 out.push(Reading {
                     value: v,
